@@ -86,6 +86,18 @@ def gen_cases(tier, seed):
                "stoptime": None, "store": None, "good_guess": False, "tolerances": tol, "cseed": int(seed) * 67867967 + 400000 + next(cs)}
 
 
+    # the smallest budgets of the row solvers: one inner iteration per row (a priming step, then one line search whose fall-back is
+    # the only step not guarded by a decrease test), one to three outer iterations, tiny dense / sparse count tables, positive guesses
+    rng4 = gen.rng_for(seed + 11, ID, tier)
+    for i in range(120 if tier == "quick" else 1600):
+        N = 2 if i % 3 else 3
+        shape = [int(s) for s in rng4.integers(2, 4, size=N)]
+        yield {"w": "apr", "alg": ["pqnr", "pdnr", "pqnr"][i % 3], "rep": ["dense", "sparse"][(i // 3) % 2], "shape": shape, "R": int(rng4.integers(1, 3)),
+               "dseed": int(rng4.integers(0, 2 ** 31)), "empty_slice": False, "zero_row": False, "maxinneriters": 1, "stoptol": 1e-10,
+               "precompinds": bool(rng4.integers(0, 2)), "inexact": False, "lbfgsMem": 3, "kappa": 0.01, "printitn": 0, "stoptime": None, "store": None,
+               "good_guess": False, "tiny_budget": True, "cseed": int(seed) * 67867967 + 600000 + next(cs)}
+
+
 def _gen_overfit(tier, seed, cs):
     # more components than the data supports: projected (quasi-)Newton steps drive whole columns of some component to zero in one mode
     # while the others are still alive -- the reported objective must still be the log-likelihood of the model as returned
